@@ -25,6 +25,7 @@ import (
 
 	"github.com/oxia-db/oxia/common/process"
 	time2 "github.com/oxia-db/oxia/common/time"
+	"github.com/oxia-db/oxia/common/vhook"
 )
 
 const (
@@ -108,6 +109,9 @@ func (t *trimmer) run() {
 					"Failed to trim the wal",
 					slog.Any("error", err),
 				)
+			}
+			if vhook.Enabled {
+				vhook.At("wal.trim.tick", t.wal)
 			}
 
 		case <-t.ctx.Done():
